@@ -1323,6 +1323,9 @@ def run(tier, seed, replay=None):
         "impl_outcomes": dict(res["outcomes"]), "raised_outside_dom": dict(res["raised"]),
         "known_finding_hits": dict(res["known_hits"]),
         "unprefix_replace_once": flags,
+        "sparql_keyword_removed_once": sparql_kw_once(),
+        "sparql_selectors_holding_the_keyword": sum(1 for c in cases if c["kind"] == "ast" for sel, _ in (c["tg"]["items"] or [])
+                                                    if sel[0] == "sq" and "SPARQL" in sel[1]),
         "names_repeating_their_prefix": dict(res["repeat_names"]),
         "documents_with_literals_spelled_like_a_class_iri": dict(res["class_literals"]),
         "disagreements_model_vs_impl": len(res["corr_fail"]),
